@@ -544,6 +544,11 @@ func isOutVariant(st *Step) bool { return outArg(st.Argv) != "" }
 func resultBytes(st *Step, r *Result) []byte {
 	if o := outArg(st.Argv); o != "" {
 		if f := st.Files[o]; f != nil && f.SymlinkTo != "" {
+			// what a reader of the -o name sees: the link's target if the link was
+			// followed, the file that replaced the link if it was renamed over
+			if b, ok := r.Created[o]; ok {
+				return b
+			}
 			return r.Created[f.SymlinkTo]
 		}
 		return r.Created[o]
